@@ -1025,3 +1025,18 @@ end TV.Props.Stack
 #print axioms TV.Props.Stack.iter_never_panics
 #print axioms TV.Props.Stack.loop_never_panics
 #print axioms TV.Props.Stack.run_never_panics
+
+namespace TV.Props.Stack
+open TV TV.Strat TV.Stack
+
+/-- **`Tracer::clear` keeps the invariant**: the cleared state is a fresh aggregation (of no rounds),
+the tracing state and the channel are as they were, and no error is recorded any more — so every
+theorem above holds again for the run that continues after a clear. -/
+theorem clear_good {F : Type} [Agg.Num F] {c : Cfg} (acfg : Agg.Cfg) {st : St F} (hg : Good c st) :
+    Good c (Stack.clear acfg st) ∧ (Stack.clear acfg st).ts = st.ts ∧ (Stack.clear acfg st).chan = st.chan ∧
+    (Stack.clear acfg st).error = none ∧ (Stack.clear acfg st).agg = Agg.State.new acfg :=
+  ⟨⟨hg.reach, hg.chan, acfg, [], by simp, rfl⟩, rfl, rfl, rfl, rfl⟩
+
+end TV.Props.Stack
+
+#print axioms TV.Props.Stack.clear_good
